@@ -15,7 +15,10 @@
 //     (Ctx.Enumerate): exhaustive in the neighbourhood of every look-ahead.
 package cssedge
 
-import "unicode/utf8"
+import (
+	"strings"
+	"unicode/utf8"
+)
 
 // Construct is a well-formed piece of CSS text; Class names the entry point
 // family it is meant for: "value" (component values), "decls" (declaration
@@ -214,4 +217,40 @@ func NthGrid(full bool, emit func(string)) {
 			}
 		}
 	}
+}
+
+// ---------------------------------------------------------------- control characters in selectors
+
+// CtlChars: the characters a hand scanner treats specially or forgets: the
+// three CSS newlines (and CR LF), NUL, tab, vertical tab, DEL, other C0 / C1
+// controls.
+var CtlChars = []string{"\f", "\r", "\n", "\r\n", "\x00", "\t", "\x0b", "\x7f", "\x01", "\x1f", "\u0080", " "}
+
+// SelectorSlots: selector texts with one slot (\x1a) inside every lexical
+// context of the selector parser: quoted strings (both quotes, attribute values
+// and functional pseudo-class arguments, first / middle / last position, after a
+// backslash), unquoted attribute values, identifiers (type, class, id,
+// attribute name, pseudo-class name, pseudo-element), An+B, between compounds.
+var SelectorSlots = []string{
+	"a[title=\"x\x1ay\"]", "a[title='x\x1ay']", "a[title=\"\x1a\"]", "a[title='\x1ay']", "a[title=\"x\x1a\"]", "a[title=\"x\\\x1ay\"]", "a[title='x\\\x1a']",
+	"a[title=\"x\x1ay\" i]", "[title~=\"x\x1ay\"]", "[title|='x\x1ay']", "[title^=\"\x1a\"]", "[title$='x\x1a']", "[title*=\"x\x1a\"]",
+	":not([title=\"x\x1ay\"])", ":is(a, [t='\x1a'])", "p:has([t=\"x\x1a\"])", ":lang(\"x\x1ay\")", ":contains(\"x\x1ay\")", ":contains('x\x1ay')", ":containsOwn(\"\x1a\")",
+	"a[title=\"x\x1a", "a[title='\x1a", "\"x\x1ay\"", "'\x1a'",
+	"a[title=x\x1ay]", "a[title=\x1a]", "a[ti\x1atle=x]", "a[title\x1a=x]", "a[title=\x1a'x']", "a[title='x'\x1a]", "a[\x1atitle]",
+	"a\x1ab", "x\x1a", "\x1aa", ".c\x1ad", "#i\x1aj", ".\x1a", "#\x1a", "a.\\\x1a", "a\\\x1ab",
+	":fi\x1arst-child", ":\x1afirst-child", "::bef\x1aore", ":lang(f\x1ar)", ":lang(\x1a)", ":not(\x1aa)", ":not(a\x1a)", ":is(a\x1a,b)",
+	":nth-child(2\x1an+1)", ":nth-child(\x1aodd)", ":nth-child(2n\x1a+1)", ":nth-child(2n+1\x1a)", ":nth-child(2n+\x1a1)", ":nth-child(2n+1 of\x1a.a)",
+	"a\x1a>b", "a>\x1ab", "a\x1a,b", "a,\x1ab", "a \x1a b", "a/*\x1a*/b",
+}
+
+// SelectorCtl fills the slot of every SelectorSlots entry with every CtlChars entry.
+func SelectorCtl() []string {
+	var out []string
+	for _, t := range SelectorSlots {
+		for _, c := range CtlChars {
+			s := strings.ReplaceAll(t, "\x1a", c)
+			out = append(out, s)
+		}
+	}
+	return out
 }
